@@ -88,6 +88,8 @@ func (d *HTTPDeliverer) Deliver(ctx context.Context, delivery Delivery) Result {
 		return Result{Err: err}
 	}
 
+	// checkRedirect signs every further request of this delivery (see there).
+	ctx = context.WithValue(ctx, signedDeliveryKey{}, &delivery)
 	req, err := http.NewRequestWithContext(ctx, method, delivery.URL, bytes.NewReader(delivery.Body))
 	if err != nil {
 		return Result{Err: err}
@@ -117,15 +119,31 @@ func (d *HTTPDeliverer) checkRedirect(req *http.Request, via []*http.Request) er
 	if err := checkEgressPolicyURL(req.Context(), req.URL, d.Policy, d.Resolver); err != nil {
 		return err
 	}
+	// net/http copies the previous request's headers, signature included. The
+	// request that follows a redirect has another path and, after 301/302/303,
+	// another method and no body: sign it as the request it is.
+	if delivery, ok := req.Context().Value(signedDeliveryKey{}).(*Delivery); ok && delivery.Sign != nil {
+		var body []byte
+		if req.Body != nil && req.Body != http.NoBody {
+			body = delivery.Body
+		}
+		if err := d.signRequest(req, delivery.Sign, body); err != nil {
+			return err
+		}
+	}
 	return nil
 }
+
+type signedDeliveryKey struct{}
 
 func (d *HTTPDeliverer) applyDeliverySigning(req *http.Request, delivery Delivery) error {
 	if delivery.Sign == nil {
 		return nil
 	}
+	return d.signRequest(req, delivery.Sign, delivery.Body)
+}
 
-	cfg := delivery.Sign
+func (d *HTTPDeliverer) signRequest(req *http.Request, cfg *HMACSigningConfig, body []byte) error {
 	signatureHeader := strings.TrimSpace(cfg.SignatureHeader)
 	timestampHeader := strings.TrimSpace(cfg.TimestampHeader)
 	if signatureHeader == "" || timestampHeader == "" {
@@ -151,7 +169,7 @@ func (d *HTTPDeliverer) applyDeliverySigning(req *http.Request, delivery Deliver
 		return fmt.Errorf("delivery signing secret %q is empty", secretRef)
 	}
 
-	bodyHash := sha256.Sum256(delivery.Body)
+	bodyHash := sha256.Sum256(body)
 	reqPath := req.URL.EscapedPath()
 	if reqPath == "" {
 		reqPath = "/"
